@@ -201,6 +201,28 @@ def families():
             return s, ({"mq": mq} if how == "exec" else None), None
         return dict(kind="core", desc="owner!=%r mq via %s (%s)" % (owner, how, mq), build=build)
 
+    @fam("nested_stmt_params")
+    def f7c(rng):
+        # Executable.params() at several levels of one statement for the same bind name (outer select / scalar subquery, the two
+        # sides of a union): whichever level wins, it has to be the same one with and without the cache
+        shape = rng.choice(["union", "union", "subquery"])
+        v1, v2 = rng.sample([1, 5, 8, 10], 2)
+        # (siblings that disagree with nobody above them to decide are KF-C02-1: generated rarely, the finding ends the history)
+        outer = rng.random() < (0.9 if shape == "union" else 0.5)
+        def build():
+            a = select(items.c.id).where(items.c.qty >= bindparam("mq", 2)).params(mq=v1)
+            if shape == "union":
+                b = select(items.c.id).where(items.c.qty < bindparam("mq", 2)).params(mq=v2)
+                u = m["union_all"](a, b)
+                if outer:
+                    u = u.params(mq=v1 + v2)
+                return u.order_by("id"), None, None
+            sub = a.scalar_subquery()
+            s2 = select(items.c.id, items.c.owner).where(items.c.id.in_(a)).where(items.c.qty < bindparam("hi", 99))
+            s2 = s2.params(hi=50) if not outer else s2.params(hi=50, mq=v2)
+            return s2.order_by(items.c.id), None, None
+        return dict(kind="core", desc="%s mq=%s/%s outer=%s" % (shape, v1, v2, outer), build=build)
+
     @fam("literal_execute")
     def f8(rng):
         v = rng.choice([1, 5, 8])
